@@ -321,3 +321,140 @@ Proof.
     + unfold step, goto; cbn [lab data cur rest outp length Nat.ltb Nat.leb bk1 bk2 nth_error]. done_shape.
   - (* Linf *) destruct d as [|x [|? ?]]; crush. unfold step; cbn. split; [apply Forall_rev; assumption|auto].
 Qed.
+
+Definition pend (l : label) : bool :=
+  match l with L1down | L12down | L132up | L312down | Lup | Ldown => true | _ => false end.
+(* every input value is still to be read, or not below data[0], or not below the value in flight *)
+Definition cover (l : list Z) (s : state Z) : Prop :=
+  forall x, In x l -> In x (rest s) \/ front (data s) <= x \/ (pend (lab s) = true /\ cur s <= x).
+
+Ltac fr_facts :=
+  repeat match goal with
+  | H : Forall _ (_ :: _) |- _ => inversion H; clear H; subst
+  | H : Forall _ [] |- _ => clear H
+  end.
+Ltac solve_cover :=
+  first [ left; assumption
+        | right; left; lia
+        | right; right; split; [reflexivity | lia] ].
+Ltac done_cover Hc :=
+  let x0 := fresh "x0" in let Hx0 := fresh "Hx0" in
+  intros x0 Hx0; specialize (Hc x0 Hx0);
+  cbn [lab data cur rest outp pend erase skipn set_fr0 set_fr1 set_bk1 set_nth length Nat.sub] in Hc |- *;
+  rewrite ?front_cons2, ?front_one in *;
+  destruct Hc as [Hc | [Hc | [? Hc]]]; try discriminate;
+  [ try (destruct Hc as [Hc | Hc]; [subst|]); solve_cover | solve_cover .. ].
+
+Lemma step_cover l (s : state Z) :
+  shape (lab s) (data s) (cur s) -> cover l s ->
+  match step Z Z.ltb s with
+  | Next s' => cover l s'
+  | _ => True
+  end.
+Proof.
+  destruct s as [lb d v r o]. cbn [lab data cur rest outp]. intros Hs Hc. unfold cover in *.
+  destruct lb; cbn [shape] in Hs.
+  - (* L1 *) destruct d as [|x [|? ?]]; crush. unfold step, goto; cbn [lab data cur rest outp fr0 length Nat.sub nth_error].
+    destruct r as [|y r]; [done_cover Hc|]. cmps; done_cover Hc.
+  - (* L1down *) destruct d as [|x [|? ?]]; crush. unfold step, goto; cbn [lab data cur rest outp]. done_cover Hc.
+  - (* L12 *) destruct d as [|y [|x [|? ?]]]; crush. unfold step, goto; cbn [lab data cur rest outp fr1 length Nat.ltb Nat.leb Nat.sub nth_error].
+    destruct r as [|z r]; [done_cover Hc|]. cmps; done_cover Hc.
+  - (* L12down *) destruct d as [|y [|x [|? ?]]]; crush. unfold step, goto;
+      cbn [lab data cur rest outp fr0 fr1 length Nat.ltb Nat.leb Nat.sub nth_error]. cmps; done_cover Hc.
+  - (* L132 *) destruct Hs as [Hn Hl]. pose proof (nest_front _ _ Hn) as Hfr.
+    destruct d as [|c [|b [|a t]]]; cbn [length] in Hl; try lia.
+    unfold step, goto; cbn [lab data cur rest outp bk1 bk2 bk3 nth_error].
+    destruct r as [|x r]; [done_cover Hc|].
+    rewrite ?front_cons2 in Hfr. fr_facts. cbn [nest negb] in Hn. crush.
+    cmps; try solve [done_cover Hc].
+    cbn [erase skipn]. destruct t as [|e t']; done_cover Hc.
+  - (* L132up *) destruct Hs as (Hn & Hl & Hv). pose proof (nest_front _ _ Hn) as Hfr.
+    destruct d as [|c [|b [|a t]]]; cbn [length] in Hl; try lia.
+    unfold step, goto; cbn [lab data cur rest outp bk1 bk2 bk3 nth_error].
+    rewrite ?front_cons2 in Hfr. fr_facts. cbn [nest negb hd_lt] in *. crush.
+    cmps; done_cover Hc.
+  - (* L312 *) destruct Hs as [Hn Hl]. pose proof (nest_front _ _ Hn) as Hfr.
+    destruct d as [|c [|b [|a [|e t]]]]; cbn [length] in Hl; try lia.
+    unfold step, goto; cbn [lab data cur rest outp bk1 bk2 bk3 nth_error].
+    destruct r as [|x r]; [done_cover Hc|].
+    rewrite ?front_cons2 in Hfr. fr_facts. cbn [nest negb] in Hn. crush.
+    cmps; try solve [done_cover Hc].
+  - (* L312down *) destruct Hs as (Hn & Hl & Hv). pose proof (nest_front _ _ Hn) as Hfr.
+    destruct d as [|c [|b [|a [|e t]]]]; cbn [length] in Hl; try lia.
+    unfold step, goto; cbn [lab data cur rest outp bk1 bk2 bk3 nth_error].
+    rewrite ?front_cons2 in Hfr. fr_facts. cbn [nest negb hd_gt] in *. crush.
+    cmps; done_cover Hc.
+  - (* Lup *) destruct Hs as (Hn & Hv). pose proof (nest_front _ _ Hn) as Hfr.
+    destruct d as [|c [|b t]]; cbn [nest negb hd_lt] in *; crush.
+    + unfold step, goto; cbn [lab data cur rest outp length Nat.eqb]. fr_facts. done_cover Hc.
+    + unfold step, goto; cbn [lab data cur rest outp length Nat.eqb]. done_cover Hc.
+  - (* Ldown *) destruct Hs as (Hn & Hv).
+    destruct d as [|c [|b [|a t]]]; cbn [nest negb hd_gt] in *; crush;
+      unfold step, goto; cbn [lab data cur rest outp length]; done_cover Hc.
+  - (* Lendup *) pose proof (nest_front _ _ Hs) as Hfr. destruct d as [|c [|b t]]; cbn [nest negb] in *; crush.
+    unfold step, goto; cbn [lab data cur rest outp]. done_cover Hc.
+  - (* Lenddown *) destruct d as [|c [|b [|a t]]]; cbn [nest negb] in *; crush.
+    + unfold step, goto; cbn [lab data cur rest outp length Nat.ltb Nat.leb]. done_cover Hc.
+    + unfold step, goto; cbn [lab data cur rest outp length Nat.ltb Nat.leb bk1 bk2 nth_error]. done_cover Hc.
+  - (* Linf *) unfold step. cbn [lab data]. destruct (fr0 Z d); exact I.
+Qed.
+
+(* ------------------------------------------------------------------ whole runs *)
+Definition inv (l : list Z) (s : state Z) : Prop :=
+  shape (lab s) (data s) (cur s) /\ Forall strict (outp s) /\ (endlab (lab s) = true -> rest s = []) /\ cover l s.
+
+Lemma run_inv l fuel s : inv l s -> (potential s < fuel)%nat ->
+  exists ps m, run Z Z.ltb fuel s = Done ps m /\ Forall strict ps /\ forall x, In x l -> m <= x.
+Proof.
+  revert s. induction fuel as [|n IH]; intros s (Hs & Ho & He & Hc) Hp; [lia|].
+  cbn [run]. pose proof (step_shape s Hs Ho He) as H1. pose proof (step_cover l s Hs Hc) as H2.
+  destruct (step Z Z.ltb s) as [s'|ps m|] eqn:E.
+  - destruct H1 as (A1 & A2 & A3 & A4). apply IH; [repeat split; assumption|lia].
+  - destruct H1 as (A1 & A2 & A3). exists ps, m. repeat split; auto.
+    intros x Hx. destruct s as [lb d v r o]. cbn [data rest lab cur] in *. subst d r.
+    assert (El : lb = Linf).
+    { unfold step in E. cbn [lab data cur rest outp] in E.
+      destruct lb; try discriminate; try reflexivity;
+        repeat match type of E with
+        | match ?c with _ => _ end = _ => destruct c; try discriminate
+        end. }
+    subst lb.
+    destruct (Hc x Hx) as [Hin|[Hf|[Hf _]]]; cbn in *; [destruct Hin|exact Hf|discriminate].
+  - destruct H1.
+Qed.
+
+Lemma In_min_dec : forall x (l : list Z), In x l -> True. Proof. auto. Qed.
+
+(* the machine never fails, every emitted pair is strict, the last call carries the global minimum *)
+Theorem line_Z_total (l : list Z) :
+  match l with
+  | [] => line_Z l = Some ([], None)
+  | _ => exists ps m, line_Z l = Some (ps, Some m) /\ Forall strict ps /\ In m l /\ forall x, In x l -> m <= x
+  end.
+Proof.
+  destruct l as [|x r]; [reflexivity|].
+  set (l := x :: r).
+  assert (Hi : inv l (mk L1 [x] x r [])).
+  { unfold inv. cbn [lab data cur rest outp shape endlab]. split; [exact I|]. split; [constructor|]. split; [discriminate|].
+    intros y Hy. cbn [lab data cur rest]. destruct Hy as [<-|Hy]; [right; left; cbn; lia|left; exact Hy]. }
+  destruct (run_inv l (line_fuel Z l) _ Hi) as (ps & m & Hr & Hst & Hmin).
+  { unfold potential, line_fuel, l. cbn [lab data cur rest length weight]. lia. }
+  exists ps, m. unfold line_Z, line. unfold l at 1. change (x :: r) with l. rewrite Hr. repeat split; auto.
+  (* m is an element of l: the machine only moves input values around (step_good with P := In _ l) *)
+  assert (Hg : forall fuel s, good Z (fun y => In y l) s -> forall ps' m', run Z Z.ltb fuel s = Done ps' m' -> In m' l).
+  { induction fuel as [|n IH]; intros s Hgs ps' m' Hrun; [discriminate|].
+    cbn [run] in Hrun. destruct (step Z Z.ltb s) as [s'|ps2 m2|] eqn:E; try discriminate.
+    - eapply IH; [eapply step_good; eassumption|eassumption].
+    - inversion Hrun; subst. destruct s as [lb d v r0 o]. unfold step in E. cbn [lab data cur rest outp] in E.
+      destruct Hgs as (Hd & _ & _). cbn [data] in Hd.
+      destruct lb; try discriminate;
+        repeat match type of E with
+        | match ?c with _ => _ end = _ => let EE := fresh "EE" in destruct c eqn:EE; try discriminate
+        end.
+      inversion E; subst. eapply (fr0_P Z (fun y => In y l)); eassumption. }
+  eapply Hg; [|exact Hr].
+  unfold good; cbn [data cur rest]. repeat split.
+  - constructor; [left; reflexivity|constructor].
+  - left; reflexivity.
+  - apply Forall_forall. intros y Hy. right. exact Hy.
+Qed.
